@@ -878,13 +878,13 @@ def filter_literal(
 
     elif isinstance(ty, pydsdl.IntegerType):
         out = (
-            str(value)
+            (str(value) if value != -(2**63) else "-9223372036854775807")
             + "U" * isinstance(ty, pydsdl.UnsignedIntegerType)
             + "L" * (ty.bit_length > 16)
             + "L" * (ty.bit_length > 32)
         )
         assert isinstance(out, str)
-        return out
+        return out if value != -(2**63) else "(" + out + " - 1)"
 
     elif isinstance(ty, pydsdl.FloatType):
         quotient = "({}.0 / {}.0)".format(value.numerator, value.denominator)
